@@ -1,6 +1,6 @@
 // C08 - representative cycles really represent their bars.
-// E2/E1: every history over {insert_boundary(cell), remove_last} of the C05 universes (insert-only histories are the
-// filtrations) is executed on a fresh real Matrix<Options> for each option set of this unit (-DVF_C08 -DVF_CFG=k: RU and
+// E2/E1: every history over {insert_boundary(cell), remove_last, update+read} of the C05 universes (insert-only histories
+// are the filtrations; in the uK plan items update_representative_cycles is an operation placed anywhere in the history) is executed on a fresh real Matrix<Options> for each option set of this unit (-DVF_C08 -DVF_CFG=k: RU and
 // chain flavours with can_retrieve_representative_cycles), then update_representative_cycles / get_representative_cycles /
 // get_representative_cycle(bar) are compared with a pure linear-algebra oracle over Z_p that never looks at R, U or the
 // chain basis: dimension, zero boundary, birth cell, alive (not a combination of older classes and boundaries) at every
@@ -16,15 +16,62 @@ extern "C" const char* __ubsan_default_options() { return "symbolize=0"; }
 
 static std::string g_cls_suffix;
 static bool g_early_update = true;  // also call update/get_representative_cycles before the last operation of every history
+                                    // (plan items without explicit update operations only)
+
+// update_representative_cycles (followed by the reads get_representative_cycles / get_representative_cycle(bar)) as an
+// operation of the history alphabet: every placement of at most K updates between the operations of a history
+constexpr int OP_UPDATE = -2;
+
+static std::vector<int> strip_updates(const std::vector<int>& ops) {
+  std::vector<int> r;
+  for (int c : ops) if (c != OP_UPDATE) r.push_back(c);
+  return r;
+}
+static bool has_update(const std::vector<int>& ops) {
+  for (int c : ops) if (c == OP_UPDATE) return true;
+  return false;
+}
+// all placements of at most max_upd updates in the gaps before the operations of h (none after the last one: the
+// observation at the end of every case is itself update + reads); two updates never follow each other
+static void expand_updates(const std::vector<int>& h, int max_upd, std::vector<std::vector<int>>& out) {
+  size_t L = h.size();
+  std::vector<size_t> gaps;
+  std::function<void(size_t)> rec = [&](size_t from) {
+    std::vector<int> x;
+    size_t g = 0;
+    for (size_t i = 0; i < L; ++i) {
+      if (g < gaps.size() && gaps[g] == i) { x.push_back(OP_UPDATE); ++g; }
+      x.push_back(h[i]);
+    }
+    out.push_back(x);
+    if ((int)gaps.size() >= max_upd) return;
+    for (size_t i = from; i < L; ++i) { gaps.push_back(i); rec(i + 1); gaps.pop_back(); }
+  };
+  rec(0);
+}
+// case string: as pmc::case_string plus eu=<early update flag>; the text names the updates
+static std::string c08_case(const std::string& cfg, const Universe& U, int p, int idm, int ctor, const std::vector<int>& ops,
+                            bool early) {
+  std::ostringstream o;
+  o << "cfg=" << cfg << ";u=" << U.name << ";p=" << p << ";idm=" << idm << ";ctor=" << ctor << ";eu=" << (early ? 1 : 0)
+    << ";ops=" << vf::join(ops) << ";text=";
+  for (int c : ops) {
+    if (c == OP_UPDATE) o << "update+read ";
+    else if (c == OP_REMOVE) o << "remove_last ";
+    else o << "ins " << U.cells[c].name << " ";
+  }
+  return o.str();
+}
 
 enum Counter {
   EV_TRACES, EV_TRANSITIONS, EV_EVALUATIONS, EV_NONTRIVIAL, MISMATCHES, NV_CYCLES, NV_FINITE, NV_ESSENTIAL, NV_MULTI, NV_REMHIST,
-  NV_ALIVE_TESTS, NV_BASIS_TESTS, NV_EMPTYREM, NV_NONUNIT, CASES_FIRST  // + (flavour-1) * 2 + (zp ? 1 : 0)
+  NV_ALIVE_TESTS, NV_BASIS_TESTS, NV_EMPTYREM, NV_NONUNIT, NV_EXPLICIT_UPD, NV_UPD_THEN_REMOVE_INSERT, CASES_FIRST  // + (flavour-1) * 2 + (zp ? 1 : 0)
 };
 static const char* counter_names[] = {
   "ev.traces", "ev.transitions", "ev.evaluations", "ev.nontrivial", "mismatches_total", "nv.cycles_checked", "nv.bars_finite",
   "nv.bars_essential", "nv.cycles_with_several_cells", "nv.histories_with_remove_last", "nv.alive_tests", "nv.basis_tests",
-  "nv.histories_with_remove_last_on_empty_matrix", "nv.zp_non_unit_coefficient",
+  "nv.histories_with_remove_last_on_empty_matrix", "nv.zp_non_unit_coefficient", "nv.histories_with_explicit_update",
+  "nv.histories_update_then_remove_and_insert_without_update",
   "cases.ru.z2", "cases.ru.zp", "cases.chain.z2", "cases.chain.zp"};
 
 template <class O>
@@ -69,6 +116,17 @@ struct Check {
     phase("get_representative_cycles");
     prev_count = ex.m->get_representative_cycles().size();
     ex.calls += 2;
+    if constexpr (O::has_column_pairings) {
+      // read every cycle through its bar as well (nothing is compared here: every prefix ending with an update is
+      // the end of another case, where the whole observation is made)
+      phase("get_current_barcode");
+      const auto& bc = ex.m->get_current_barcode();
+      std::vector<typename Matrix<O>::Bar> bars(bc.begin(), bc.end());
+      phase("get_representative_cycle");
+      size_t total = 0;
+      for (const auto& bar : bars) { total += ex.m->get_representative_cycle(bar).size(); ++ex.calls; }
+      (void)total;
+    }
   }
 
   void observe(E& ex) {
@@ -243,9 +301,9 @@ struct Check {
     }
   }
 
-  void run_case(const Universe& U, int p, int idm, int ctor, const std::vector<int>& ops) {
-    vf::set_case(case_string(cfg, U, p, idm, ctor, ops));
-    HistInfo hi = hist_info(ops);
+  void run_case(const Universe& U, int p, int idm, int ctor, const std::vector<int>& ops, bool early) {
+    vf::set_case(c08_case(cfg, U, p, idm, ctor, ops, early));
+    HistInfo hi = hist_info(strip_updates(ops));
     g_cls_suffix = hi.empty_remove ? ":history_with_remove_last_on_empty_matrix" : "";
     long long c0 = comparisons;
     long long calls = 0;
@@ -253,8 +311,9 @@ struct Check {
       E ex(U, p, idm, ctor);
       prev_count = 0;
       for (size_t i = 0; i < ops.size(); ++i) {
-        if (i + 1 == ops.size() && g_early_update) early_update(ex);
-        ex.apply(ops[i]);
+        if (i + 1 == ops.size() && early) early_update(ex);
+        if (ops[i] == OP_UPDATE) early_update(ex);
+        else ex.apply(ops[i]);
       }
       observe(ex);
       calls = ex.calls;
@@ -272,6 +331,16 @@ struct Check {
     if (hi.inserts - hi.removes >= 3) cnt(EV_NONTRIVIAL)++;
     if (hi.removes > 0) cnt(NV_REMHIST)++;
     if (hi.empty_remove) cnt(NV_EMPTYREM)++;
+    if (has_update(ops)) cnt(NV_EXPLICIT_UPD)++;
+    {  // an update, later a remove_last and after it an insertion with no update in between (a stale cache would show)
+      int stage = 0;
+      for (int c : ops) {
+        if (c == OP_UPDATE) stage = 1;
+        else if (c == OP_REMOVE) { if (stage >= 1) stage = 2; }
+        else if (stage == 2) stage = 3;
+      }
+      if (stage == 3) cnt(NV_UPD_THEN_REMOVE_INSERT)++;
+    }
     cnt(CASES_FIRST + (O::flavour - 1) * 2 + (O::is_z2 ? 0 : 1))++;
   }
 };
@@ -281,7 +350,7 @@ struct Tag { using type = T; };
 template <class F, class... Os>
 void for_each_config(List<Os...>, F&& f) { (f(Tag<Os>{}), ...); }
 
-struct PlanItem { std::string u; int max_ins, max_rem; std::vector<int> primes; bool empty_remove = false; };
+struct PlanItem { std::string u; int max_ins, max_rem; std::vector<int> primes; bool empty_remove = false; int max_upd = 0; };
 
 int main(int argc, char** argv) {
   vf::Args a = vf::parse_args(argc, argv);
@@ -292,6 +361,7 @@ int main(int argc, char** argv) {
   double t0 = vf::now_s();
   double budget = (double)a.geti("budget", thorough ? 2000 : 400);
   g_early_update = a.geti("early", 1) != 0;
+  const bool dry = a.geti("dry", 0) != 0;  // only enumerate and count
 
   auto finish = [&]() {
     auto& st = vf::stats();
@@ -313,11 +383,12 @@ int main(int argc, char** argv) {
       if (opt_name<O>() != kv["cfg"]) return;
       found = true;
       Check<O> c;
-      HistInfo hi = hist_info(ops);
+      bool early = atoi(kv["eu"].c_str()) != 0;
+      HistInfo hi = hist_info(strip_updates(ops));
       std::string suffix = hi.empty_remove ? ":history_with_remove_last_on_empty_matrix" : "";
       run_isolated(
-          1, [&](size_t) { c.run_case(U, p, idm, ctor, ops); return true; },
-          [&](size_t) { return case_string(c.cfg, U, p, idm, ctor, ops); },
+          1, [&](size_t) { c.run_case(U, p, idm, ctor, ops, early); return true; },
+          [&](size_t) { return c08_case(c.cfg, U, p, idm, ctor, ops, early); },
           [&](const std::string& ph, const std::string& kind) { return with_suffix("C08:" + c.crash_class(ph, kind), suffix); }, EV_TRACES);
     });
     if (!found) fprintf(stderr, "configuration %s is not in this unit\n", kv["cfg"].c_str());
@@ -328,7 +399,7 @@ int main(int argc, char** argv) {
   std::vector<PlanItem> plan;
   {
     std::string s = a.get("plan", thorough ? "tet:8:1:2+3,tet:7:2:2+3+5,tri:7:3:2+3,square:9:1:2+3,strip:7:1:2+3,cw:7:2:2+3+5"
-                                      : "tet:7:1:2,tet:6:1:3,square:6:1:2+3,cw:6:1:2+3+5"), cur;
+                                      : "tet:7:1:2,tet:6:1:3,square:6:1:2+3,cw:6:1:2+3+5,tri:5:2:2:u2,tri:4:2:3:u2,tet:6:1:2:u1"), cur;
     for (char ch : s + ",") {
       if (ch != ',') { cur += ch; continue; }
       if (cur.empty()) continue;
@@ -340,7 +411,12 @@ int main(int argc, char** argv) {
       if (c3 != std::string::npos) {  // optional: primes of this item, then ":e" = also remove_last on an empty matrix
         size_t c4 = cur.find(':', c3 + 1);
         it.primes = vf::parse_ints(cur.substr(c3 + 1, c4 == std::string::npos ? std::string::npos : c4 - c3 - 1), '+');
-        it.empty_remove = c4 != std::string::npos && cur.substr(c4 + 1) == "e";
+        if (c4 != std::string::npos) {  // flags: e = remove_last also on the empty matrix, uK = at most K explicit updates
+          std::string fl = cur.substr(c4 + 1);
+          it.empty_remove = fl.find('e') != std::string::npos;
+          size_t u = fl.find('u');
+          if (u != std::string::npos) it.max_upd = atoi(fl.c_str() + u + 1);
+        }
       }
       plan.push_back(it);
       cur.clear();
@@ -357,13 +433,19 @@ int main(int argc, char** argv) {
     hb.empty_remove = item.empty_remove;
     for (int p : item.primes.empty() ? primes : item.primes) {
       long long raw = 0;
-      auto H = enumerate_histories(U, hb, p, &raw);
+      auto H0 = enumerate_histories(U, hb, p, &raw);
       vf::stats().add("histories_enumerated_raw", raw);
-      vf::stats().add("histories_distinct_call_sequences", (long long)H.size());
-      vf::stats().maxi("max_history_length", (long long)(hb.max_ins + hb.max_rem));
-      if (H.size() > 3) vf::stats().sample(case_string("(every configuration of the unit)", U, p, 0, 0, H[H.size() / 2]), 8);
+      vf::stats().add("histories_distinct_call_sequences", (long long)H0.size());
+      std::vector<std::vector<int>> H;
+      if (item.max_upd > 0) { for (auto& h : H0) expand_updates(h, item.max_upd, H); }
+      else H = H0;
+      const bool early = g_early_update && item.max_upd == 0;
+      vf::stats().add("histories_with_update_placements", (long long)H.size());
+      vf::stats().maxi("max_history_length", (long long)(hb.max_ins + hb.max_rem + item.max_upd));
+      if (H.size() > 3) vf::stats().sample(c08_case("(every configuration of the unit)", U, p, 0, 0, H[H.size() / 2], early), 8);
       std::vector<HistInfo> info;
-      for (auto& h : H) info.push_back(hist_info(h));
+      for (auto& h : H) info.push_back(hist_info(strip_updates(h)));
+      if (dry) continue;
       for_each_config(Group{}, [&](auto tag) {
         using O = typename decltype(tag)::type;
         if (O::is_z2 && p != 2) return;
@@ -383,10 +465,10 @@ int main(int argc, char** argv) {
               sel.size(),
               [&](size_t k) {
                 if (vf::now_s() - t0 > budget) return false;
-                c.run_case(U, p, idm, ctor, H[sel[k]]);
+                c.run_case(U, p, idm, ctor, H[sel[k]], early);
                 return true;
               },
-              [&](size_t k) { return case_string(c.cfg, U, p, idm, ctor, H[sel[k]]); },
+              [&](size_t k) { return c08_case(c.cfg, U, p, idm, ctor, H[sel[k]], early); },
               [&](const std::string& ph, const std::string& kind) {
                 return with_suffix("C08:" + c.crash_class(ph, kind),
                                    info[sel[g_sh->cur]].empty_remove ? ":history_with_remove_last_on_empty_matrix" : "");
